@@ -1,3 +1,20 @@
-/- Property theorems for C05 — to be filled in. -/
+/- C05 — first engine facts; the driver invariant (G2) is added below as it lands. -/
+import Stab.Lemmas.EngineBasic
 namespace Stab.Props.C05
+open Stab Stab.Engine
+/-- A workflow with a TERMINAL stage is never reported SUCCEEDED by `_determine_final_status`; it is TERMINAL. -/
+theorem terminal_stage_fails_workflow (c : Cfg) (s : State) (retry : Nat)
+    (h : (s.stages.map (·.status)).contains .terminal = true) :
+    finalStatus c s retry = some .terminal := by
+  have hne : (s.stages.map (·.status)).all (·.isContinuable) = false := by
+    simp only [List.contains_eq_any_beq, List.any_eq_true] at h
+    obtain ⟨x, hx, hxe⟩ := h
+    have hx' : x = .terminal := (by simpa using hxe : Status.terminal = x).symm
+    subst hx'
+    apply Bool.eq_false_iff.mpr
+    intro hall
+    have := (List.all_eq_true.mp hall) _ hx
+    exact absurd this (by decide)
+  unfold finalStatus
+  simp only [hne, h, Bool.false_eq_true, ↓reduceIte]
 end Stab.Props.C05
